@@ -55,7 +55,7 @@ theorem wp_readStep (k n : String) (Q : Out Unit → MS R → Prop) (flt ms) :
 theorem wp_refuse {α} (Q : Out α → MS R → Prop) (flt ms) : wp (refuse : M R α) Q flt ms ↔ Q .fail ms := Iff.rfl
 theorem wp_getSt (Q : Out (State R) → MS R → Prop) (flt ms) : wp getSt Q flt ms ↔ Q (.ok ms.st) ms := Iff.rfl
 theorem wp_getMS (Q : Out (MS R) → MS R → Prop) (flt ms) : wp getMS Q flt ms ↔ Q (.ok ms) ms := Iff.rfl
-theorem wp_emit (m : Msg) (Q : Out Unit → MS R → Prop) (flt ms) :
+theorem wp_emit (m : Msg R) (Q : Out Unit → MS R → Prop) (flt ms) :
     wp (emit m) Q flt ms ↔ Q (.ok ()) { ms with msgs := ms.msgs ++ [m] } := Iff.rfl
 
 def attK (Q : Out Bool → MS R → Prop) (o : Out Unit) (ms : MS R) : Prop :=
